@@ -6,6 +6,17 @@ import z3
 import mir
 import mprop
 from gating import is_ok, is_err, is_some, ok_some, ok_true, must, disc_of
+from kprop import run_kani_part
+
+# the unsafe-VRP filter must not remove VRPs it is not documented to remove (harnesses shared with C08)
+KSPEC = {
+    "groups": ["validation"],
+    "files": ["src/payload/validation.rs"],
+    "harnesses": {"quick": ["c08_keep_prefix_nothing_rejected", "c08_keep_prefix_other_family"],
+                  "thorough": ["c08_keep_prefix_v4_one_block"]},
+    "harness_file": {"*": ("validation.rs", "src/payload/validation.rs")},
+    "timeout": {"quick": 900, "thorough": 7200},
+}
 
 OBJ_INLINE = [r"engine::PubPoint::process_(cer|ca_cer|router_cert|roa|aspa|gbr)$"]
 PROCESSOR = r"ProcessPubPoint::(want|process_roa|process_aspa|process_gbr|process_router_cert|process_ca)$"
@@ -62,6 +73,8 @@ def check_commit(res, E):
 
 
 def run(res, tier):
+    run_kani_part(res, KSPEC, tier)
+    res.functions.append("payload::validation::RejectedResources::keep_prefix (Kani: kept when nothing is rejected / when only the other address family is rejected; thorough: exact overlap test against one symbolic IPv4 block)")
     E = mprop.engine(res)
     res.extra.setdefault("source_files_sha256", {}).update(
         mprop.source_hashes(["src/engine.rs", "src/payload/validation.rs"]))
